@@ -88,32 +88,62 @@ type contractPayment struct {
 	transactOpts *bind.TransactOpts
 
 	settleMu sync.Mutex
-	settling map[common.Address]common.Hash // Settlements that were submitted, until their Balance event arrives
+	settling map[common.Address]settlement // Settlements that were submitted, until they are known to be mined or gone
+}
+
+// settlement is a submitted settlement transaction and the balance that it
+// leaves the account with.
+type settlement struct {
+	txHash     common.Hash
+	newBalance *big.Int
 }
 
 // startSettling remembers that a settlement of the account's balance was
-// submitted as txHash.
-func (p *contractPayment) startSettling(addr common.Address, txHash common.Hash) {
+// submitted.
+func (p *contractPayment) startSettling(addr common.Address, txHash common.Hash, newBalance *big.Int) {
 	p.settleMu.Lock()
 	defer p.settleMu.Unlock()
 	if p.settling == nil {
-		p.settling = map[common.Address]common.Hash{}
+		p.settling = map[common.Address]settlement{}
 	}
-	p.settling[addr] = txHash
+	p.settling[addr] = settlement{txHash, new(big.Int).Set(newBalance)}
 }
 
-// resetSettling forgets all outstanding settlements.
-func (p *contractPayment) resetSettling() {
+// settled forgets the settlement of the account, if it is still the one
+// submitted as txHash.
+func (p *contractPayment) settled(addr common.Address, txHash common.Hash) {
 	p.settleMu.Lock()
 	defer p.settleMu.Unlock()
-	p.settling = nil
+	if s, ok := p.settling[addr]; ok && s.txHash == txHash {
+		delete(p.settling, addr)
+	}
 }
 
-// settled forgets the outstanding settlement of the account.
-func (p *contractPayment) settled(addr common.Address) {
+// outstandingSettlement returns the settlement of the account that is
+// submitted and, as far as the node can tell, still waiting to be mined. A
+// settlement that the node has mined (its event got lost) or does not know
+// anymore (dropped, replaced) is forgotten.
+func (p *contractPayment) outstandingSettlement(addr common.Address) (settlement, bool) {
 	p.settleMu.Lock()
-	defer p.settleMu.Unlock()
-	delete(p.settling, addr)
+	s, ok := p.settling[addr]
+	p.settleMu.Unlock()
+	if !ok {
+		return s, false
+	}
+	reader, ok := p.backend.(ethereum.TransactionReader)
+	if !ok {
+		// Can't ask. Its event will tell.
+		return s, true
+	}
+	ctx, cancel := context.WithTimeout(context.Background(), 10*time.Second)
+	defer cancel()
+	tx, isPending, err := reader.TransactionByHash(ctx, s.txHash)
+	if err == ethereum.NotFound || (err == nil && tx != nil && !isPending) {
+		p.settled(addr, s.txHash)
+		return s, false
+	}
+	// Pending, or the node can't be asked right now.
+	return s, true
 }
 
 // acceptBalanceEvent returns whether a Balance event of the account, emitted
@@ -124,11 +154,11 @@ func (p *contractPayment) settled(addr common.Address) {
 func (p *contractPayment) acceptBalanceEvent(addr common.Address, txHash common.Hash) bool {
 	p.settleMu.Lock()
 	defer p.settleMu.Unlock()
-	settlement, ok := p.settling[addr]
+	s, ok := p.settling[addr]
 	if !ok {
 		return true
 	}
-	if settlement != txHash {
+	if s.txHash != txHash {
 		return false
 	}
 	delete(p.settling, addr)
@@ -244,7 +274,8 @@ func (p *contractPayment) SubscribeBalance(ctx context.Context, handler func(acc
 			lastErr = time.Now()
 			// Events were missed while the subscription was down, what is
 			// cached can be stale: start over with a new subscription.
-			p.resetSettling()
+			// (Not the settlements that are waited for: they are the pool's
+			// own knowledge, not a reading that went stale.)
 			p.balanceCache.Reset(0)
 			if sub, sink, err = watch(); err != nil {
 				logger.Printf("SubscribeBalance failed to subscribe again: %s", err)
@@ -286,20 +317,29 @@ func (p *contractPayment) GetBalance(account store.Account) (*big.Int, error) {
 		return nil, ErrDepositTimelocked
 	}
 	logger.Printf("Retrieved contract balance for %q in %s: %d (mined: %d)", account, time.Now().Sub(timer), r.Balance, mined.Balance)
-	if r.Balance.Cmp(mined.Balance) == 0 {
-		// Nothing of this account is on its way, a settlement neither.
-		p.settled(addr)
+	balance, unconfirmed := r.Balance, false
+	if balance.Cmp(mined.Balance) > 0 {
+		balance = mined.Balance
 	}
-	if cmp := r.Balance.Cmp(mined.Balance); cmp != 0 {
+	if r.Balance.Cmp(mined.Balance) != 0 {
 		// Something is on its way. There will be a Balance event if it gets
 		// mined, but none if it does not: don't keep this value.
-		balance := r.Balance
-		if cmp > 0 {
-			balance = mined.Balance
+		unconfirmed = true
+	}
+	if s, ok := p.outstandingSettlement(addr); ok {
+		// So is a settlement of ours. What it pays out is spoken for, whatever
+		// the node's states say (a node need not have a pending state at all,
+		// and a pending deposit on top of the settlement can make it look as
+		// if nothing had happened).
+		unconfirmed = true
+		if balance.Cmp(s.newBalance) > 0 {
+			balance = s.newBalance
 		}
+	}
+	if unconfirmed {
 		return nil, unconfirmedBalance{balance}
 	}
-	return r.Balance, nil
+	return balance, nil
 }
 
 // unconfirmedBalance is returned by GetBalance as an error carrying the
@@ -361,7 +401,7 @@ func (p *contractPayment) OpSettle(account store.Account, paymentAmount *big.Int
 	// a withdrawal repeated before that would be paid the same deposit again.
 	// Neither must an event from before the settlement that is still on its way
 	// bring it back.
-	p.startSettling(addr, txn.Hash())
+	p.startSettling(addr, txn.Hash(), newBalance)
 	// Until the settlement is mined. If it never is (dropped by the node,
 	// replaced), no event will say so: don't believe it for longer than this.
 	p.balanceCache.SetProvisional(account, new(big.Int).Set(newBalance), settlementCacheExpire)
